@@ -70,3 +70,22 @@ Proof.
     reflexivity.
   - apply list_R_map1.
 Qed.
+
+Parametricity Recursive c01_undisc_check.
+Theorem c01_undisc_check_transfer nS nA P Rw av ab ini g V Qv Pi iv N :
+  @c01_undisc_check Q NumQ (mk_mdp nS nA P Rw av ab ini g) (mk_out V Qv Pi iv) N =
+  @c01_undisc_check R NumR
+     (mk_mdp nS nA (map3 Q2R P) (map3 Q2R Rw) av ab (map Q2R ini) (Q2R g))
+     (mk_out (map Q2R V) (map2 (option_map Q2R) Qv) (map2 Q2R Pi) (Q2R iv))
+     (map Q2R N).
+Proof.
+  apply list_R_bool_eq.
+  apply (c01_undisc_check_R Q R QR NumQ NumR NumQR).
+  - apply (mk_mdp_R Q R QR NumQ NumR NumQR); try apply nat_R_refl;
+      auto using list_R_map1, list_R_map2, list_R_map3, list_R_bool_refl, list_R_bool2_refl.
+    reflexivity.
+  - apply (mk_out_R Q R QR NumQ NumR NumQR);
+      auto using list_R_map1, list_R_map2, list_R_opt2.
+    reflexivity.
+  - apply list_R_map1.
+Qed.
